@@ -1,3 +1,8 @@
 import TsModel.Storage
 import TsModel.Serial
 import TsModel.Shard
+import TsModel.Chunk
+import TsModel.Slab
+import TsModel.BatchRead
+import TsModel.Path
+import TsModel.Flatten
